@@ -12,7 +12,7 @@
    Properties/C09.v) creates a second partition writer for the same partition whose sender runs
    concurrently with the old one. *)
 From Coq Require Import List NArith Bool Arith.
-From KV Require Import Lib.LTS Model.Writer Proofs.WriterStmts Proofs.WriterC07.
+From KV Require Import Lib.LTS Model.Writer Proofs.WriterStmts Proofs.WriterC07 Proofs.WriterC07F3 Proofs.WriterHolds7.
 Import ListNotations.
 
 (* Every copy of an earlier batch precedes every copy of a later one: if no produce request
@@ -47,6 +47,37 @@ Theorem C07_retries_contiguous :
     (s_late s = false -> a_tp a = a_tp b -> a_pw a = a_pw b).
 Proof. exact C07_retries_contiguous_proof. Qed.
 Print Assumptions C07_retries_contiguous.
+
+(* The extracted boolean predicate that the correspondence run evaluates on every recorded
+   real history (per goroutine and partition: the applied produce requests, projected on the
+   goroutine's submission ranks, are increasing blocks, each a copy of the previous one or
+   entirely after it) is true on every run of the model without the late Assign. *)
+Theorem C07_holds_for_on_runs :
+  forall cfg ls s g tp, run (step cfg) init ls = Some s -> s_late s = false ->
+    C07_holds_for cfg (s_calls s) (s_journal s) g tp = true.
+Proof. exact C07_holds_for_runs. Qed.
+Print Assumptions C07_holds_for_on_runs.
+
+(* The property at full strength (every schedule, also batchMessages after Close). *)
+Definition C07_order_full_statement : Prop :=
+  forall cfg ls s, cfg_ok cfg -> run (step cfg) init ls = Some s ->
+  forall g tp m1 m2, submitted_before cfg s g tp m1 m2 ->
+    (forall a, In a (s_journal s) -> ~ (In m1 (a_msgs a) /\ In m2 (a_msgs a))) ->
+    forall i j, nth_error (log_of s tp) i = Some m1 -> nth_error (log_of s tp) j = Some m2 -> i < j.
+
+(* It is refuted by the code as it is, through the same interleaving as defect F3 (C09): an
+   Async writer, goroutine 1 submits m1 (batched), then m2 in a call that passed enter() before
+   Close; Close flushes and closes the partition writer; the late batchMessages creates a
+   second partition writer for the partition, which produces m2 before the first produces m1.
+   (C07_order above is therefore stated with s_late s = false.) *)
+Theorem C07_order_refuted_when_late :
+  exists cfg ls s g tp m1 m2 i j,
+    cfg_ok cfg /\ run (step cfg) init ls = Some s /\ s_late s = true /\
+    submitted_before cfg s g tp m1 m2 /\
+    (forall a, In a (s_journal s) -> ~ (In m1 (a_msgs a) /\ In m2 (a_msgs a))) /\
+    nth_error (log_of s tp) i = Some m1 /\ nth_error (log_of s tp) j = Some m2 /\ j < i.
+Proof. exact C07_order_refuted_when_late_proof. Qed.
+Print Assumptions C07_order_refuted_when_late.
 
 (* ---- non-vacuity: BatchSize 1, MaxAttempts 3; goroutine 1 submits m1, m2 (two batches) in one
    call; batch 0 loses its acknowledgement (applied, error 7 retriable) and is retried while
